@@ -132,7 +132,7 @@ def intrinsic_failures(sc: dict, out=None) -> set[int]:
     """Nodes that fail by themselves.  Planned 'raise' faults fire whenever the
     node executes; deaths are taken from what actually fired (a kill before the
     result was queued), not from the plan."""
-    fails = {int(k) for k, v in (sc.get('fail') or {}).items() if v in ('raise', 'sysexit')}
+    fails = {int(k) for k, v in (sc.get('fail') or {}).items() if v in ('raise', 'sysexit', 'raise-chained')}
     if out is None:
         fails |= {int(k) for k, v in (sc.get('fail') or {}).items() if v == 'die'}
         return fails
@@ -495,7 +495,7 @@ def check_C10(sc: dict, out, facts: Facts) -> list[dict]:
     ref = facts.ref
     vs = []
     execute, load = expected_plan(sc, ref)
-    planned_raise = {int(k) for k, v in (sc.get('fail') or {}).items() if v in ('raise', 'sysexit')}
+    planned_raise = {int(k) for k, v in (sc.get('fail') or {}).items() if v in ('raise', 'sysexit', 'raise-chained')}
     intrinsic = (intrinsic_failures(sc, out) - planned_raise) & (set(execute) | set(load))
     intrinsic |= planned_raise & set(execute)
     failed = ref.failing(execute, intrinsic)
